@@ -15,7 +15,7 @@ use hydro_lang::sim::{SimReceiver, SimSender};
 #[cfg(stageleft_runtime)]
 pub const META: PropMeta = PropMeta {
     id: "C37",
-    quick_runs: 200_000,
+    quick_runs: 100_000,
     thorough_runs: 10_000_000,
     rule: "end to end: six small programs whose outcome (sequence of per-tick records) identifies the schedule — batch of a total stream, of an unordered stream, of a keyed stream; batch+snapshot in one tick; two dependent ticks ready at once (slice B snapshots a count of slice A's output); a top-level assume_ordering observation feeding a tick. CompiledSim::exhaustive is run once per program and its outcome set S collected; each run then draws one legal outcome from an independent reference model of the decision space (any prefix / any subset / any snapshot version >= the last / any order of ready ticks and observations; every tick releases something new) and tests membership in S. Distinct = distinct (program, sampled outcome); non-trivial = the sampled outcome has more than one tick/observation.",
     time_unit: "reference ticks/observations sampled",
